@@ -2149,7 +2149,7 @@ func init() {
 	register(&property{
 		Meta: propertyMeta{
 			ID:          "C19",
-			Explanation: "(C19-STATUS) for every response helper (Render, ShouldRender, MustRender, Respond, HTTPError, Text, HTML, HTMLString, Blob, Stream, JSON, JSONBytes, XML, JSONP, Binary, dispositionContent) a call recording exactly the helper's own status argument (SetStatus, WriteHeader, http.Error/Redirect code, or a helper that does, by fixpoint) dominates every body-writing call; NoContent records 204; Redirect passes the caller's code (default 301). (C19-CTYPE) helper -> content-type constant table checked by value against goutil's httpctype constants (Text, HTML, JSON, JSONP, XML, Binary) through Blob / the renderers' writeContentType. (C19-NOOVERRIDE) in pkg/render the Content-Type header is written only in writeContentType under 'no value present', and every Render calls it before writing. (C19-ARMS) in render.Auto every case that names a MIME constant marks the type handled (an empty case is reported: Go does not fall through); the scan stops at the first handled type. (C19-ERR) errors of Render / Encode / io.Copy / Write are returned, tested or recorded with AddError. (C19-STREAM) for every invoke of an io.Reader-shaped Read in the module, each forward path on which the returned error is non-nil has passed buf[:n] to a call, or knows n == 0; the pinned tree has no such call, a fixture with one loop of each kind is analysed in the same run.",
+			Explanation: "(C19-STATUS) for every response helper (Render, ShouldRender, MustRender, Respond, HTTPError, Text, HTML, HTMLString, Blob, Stream, JSON, JSONBytes, XML, JSONP, Binary, dispositionContent) a call recording exactly the helper's own status argument (SetStatus, WriteHeader, http.Error/Redirect code, or a helper that does, by fixpoint) dominates every body-writing call; NoContent records 204; Redirect passes the caller's code (default 301). (C19-CTYPE) helper -> content-type constant table checked by value against goutil's httpctype constants (Text, HTML, JSON, JSONP, XML, Binary) through Blob / the renderers' writeContentType. (C19-NOOVERRIDE) in pkg/render the Content-Type header is written only in writeContentType under 'no value present', and every Render calls it before writing. (C19-ARMS) in render.Auto every case that names a MIME constant marks the type handled (an empty case is reported: Go does not fall through); the scan stops at the first handled type. (C19-ERR) errors of Render / Encode / io.Copy / Write are returned, tested or recorded with AddError. (C19-STREAM) for every invoke of an io.Reader-shaped Read in the module, each forward path on which the returned error is non-nil has passed buf[:n] to a call, or knows n == 0; the pinned tree has no such call, a fixture with one loop of each kind is analysed in the same run. (C19-LENGTH) a Content-Length header stored by the response helpers (root package, pkg/render; Header().Set/Add, a header map update, Context.SetHeader) derives from len() of the data in hand and from nothing else; zero instances today, one reader-Size() and one len(data) fixture are analysed in every run.",
 			NotDecided:  []string{"that the body decodes back to the value; JSONP framing bytes", "which status wins when a helper is called after the commit (C08)"},
 			Assumptions: []string{"goutil httpctype constants are the documented content types"},
 		},
